@@ -1,0 +1,47 @@
+//go:build verif
+
+package aggsender
+
+import (
+	"context"
+
+	"github.com/agglayer/aggkit/agglayer"
+	agglayertypes "github.com/agglayer/aggkit/agglayer/types"
+	"github.com/agglayer/aggkit/aggsender/config"
+	"github.com/agglayer/aggkit/aggsender/db"
+	"github.com/agglayer/aggkit/aggsender/types"
+	aggkitcommon "github.com/agglayer/aggkit/common"
+	"github.com/agglayer/aggkit/log"
+)
+
+// Verification hooks (build tag verif) for the certificate commitment check: an AggSender assembled from injected
+// parts the way New assembles it, and a pass-through to one sendCertificate call (build -> send -> marshal -> store).
+// No logic lives here.
+
+// NewVerifCertCommitSender is New without the construction of storage, flow and clients (they are passed in).
+func NewVerifCertCommitSender(
+	logger *log.Logger,
+	cfg config.Config,
+	storage db.AggSenderStorage,
+	aggLayerClient agglayer.AgglayerClientInterface,
+	epochNotifier types.EpochNotifier,
+	flow types.AggsenderFlow,
+	l2OriginNetwork uint32,
+) *AggSender {
+	return &AggSender{
+		cfg:             cfg,
+		log:             logger,
+		storage:         storage,
+		aggLayerClient:  aggLayerClient,
+		epochNotifier:   epochNotifier,
+		status:          &types.AggsenderStatus{Status: types.StatusNone},
+		flow:            flow,
+		rateLimiter:     aggkitcommon.NewRateLimit(cfg.MaxSubmitCertificateRate),
+		l2OriginNetwork: l2OriginNetwork,
+	}
+}
+
+// VerifSendCertificate is one sendCertificate call.
+func (a *AggSender) VerifSendCertificate(ctx context.Context) (*agglayertypes.Certificate, error) {
+	return a.sendCertificate(ctx)
+}
